@@ -10,7 +10,8 @@
       model, the faithful padded model (for every k) and the naive routine all return THE inverse. *)
 From Coq Require Import List NArith Arith Lia Bool Sorted ZArith ZifyBool ZifyNat ZifyN.
 From M4 Require Import Base.Bits Lin.Mat Lin.MatAlg Lin.Ops Lin.OpsProofs Lin.Spec Lin.Span
-  Lin.Echelon Lin.Observers Lin.Tri Alg.Gauss Alg.GaussProofs Alg.TRSM Alg.TRSMProofs Alg.TRSMRecProofs.
+  Lin.Echelon Lin.Observers Lin.Tri Alg.Gauss Alg.GaussProofs Alg.TRSM Alg.TRSMProofs Alg.TRSMRec
+  Alg.TRSMRecProofs.
 Import ListNotations.
 Local Open Scope nat_scope.
 
@@ -304,6 +305,25 @@ Proof.
   assert (Hd : diag_ones (nr U) U) by (intros i Hi; apply HdU; lia).
   rewrite (trtri_upper_rec_simple c U V HwU ltac:(congruence) Hd E).
   apply trtri_ok_unit; [assumption|]. now apply trtri_upper_simple_ok.
+Qed.
+
+(** the same with the faithful sub-routines of Alg/TRSMRec.v (dot-product base case, Four-Russians
+    middle regime with any k >= 1) as solvers *)
+Theorem trtri_upper_rec_f_simple c kk U V : 1 <= kk -> wf U -> nr U = nc U -> diag_ones (nr U) U ->
+  trtri_upper_rec_f c kk U = Some V -> V = trtri_upper_simple U.
+Proof.
+  intros Hk HU Hsq Hd E. unfold trtri_upper_rec_f in E.
+  apply (trtri_ok_unique (nr U) U).
+  - apply (trtri_rec_ok trtri_upper_simple (trsm_upper_left_rec_f c kk 0) (trsm_upper_right_rec_f c 0) c
+             (fun U n HU Hr Hc _ => trtri_upper_simple_ok n U HU Hr Hc)) with (fuel := nr U); auto.
+    + intros U' B HB HL. rewrite trsm_upper_left_rec_f_spec by assumption. now apply trsm_upper_left_spec.
+    + intros U' B HB HL HD. rewrite trsm_upper_right_rec_f_spec by assumption. now apply trsm_upper_right_spec.
+  - apply trtri_upper_simple_ok; auto.
+Qed.
+
+Theorem trtri_upper_rec_f_total c kk U : trtri_cfg_ok c -> nr U = nc U -> exists V, trtri_upper_rec_f c kk U = Some V.
+Proof.
+  intros Hc Hsq. unfold trtri_upper_rec_f. apply (trtri_rec_some _ _ _ c Hc (nr U) U (nr U)); auto.
 Qed.
 
 (** outside [trtri_cfg_ok] the C code does misbehave (split 0: unbounded recursion; here L3 = 8 bytes).
